@@ -1062,6 +1062,31 @@ func L2Security(thorough bool) []MethodCase {
 			out = append(out, mc)
 		}
 	}
+	// overrides that the payload of the overridden requirement would satisfy too: the same scheme
+	// with a stronger scope, and the same scheme plus one more
+	{
+		weak := &Security{Reqs: []Requirement{{{Scheme: "jwt", Scopes: []string{"s1"}}}}}
+		for _, level := range []string{"service", "api"} {
+			for _, msec := range []*Security{
+				{Reqs: []Requirement{{{Scheme: "jwt", Scopes: []string{"s1", "s2"}}}}},
+				{Reqs: []Requirement{{{Scheme: "jwt", Scopes: []string{"s1"}}, {Scheme: "aks"}}}},
+				{Reqs: []Requirement{{{Scheme: "jwt", Scopes: []string{"s2"}}}, {{Scheme: "aks"}}}},
+			} {
+				name := fmt.Sprintf("m%d", n)
+				n++
+				m := secMethod(name, usedSchemes(msec), false)
+				m.Security = msec
+				m.Feat["level"], m.Feat["reqs"], m.Feat["override"] = level, desc(weak), "method-superset:"+desc(msec)+":"+strings.Join(msec.Reqs[0][0].Scopes, "+")
+				mc := MethodCase{M: m, Schemes: SecSchemes(), Own: true}
+				if level == "service" {
+					mc.SvcSecurity = weak
+				} else {
+					mc.APISecurity = weak
+				}
+				out = append(out, mc)
+			}
+		}
+	}
 	// API and service level both set: service wins for its methods
 	{
 		name := fmt.Sprintf("m%d", n)
